@@ -15,6 +15,7 @@ func TestC05(t *testing.T) {
 	p.PFault = 25
 	p.MaxTxs = 8
 	p.W["raw"] = 1
+	p.W["propose"], p.W["vote"] = 10, 18
 	// 30 % of the histories: many stakes on few validators, validators leaving with their delegators - the stake
 	// transactions with the most steps between their first write and their last check
 	p.Alt, p.PAlt = massExitProfile(), 30
